@@ -7,6 +7,7 @@ package h
 import (
 	"fmt"
 	"math/rand"
+	"runtime"
 	"sort"
 	"strings"
 	"time"
@@ -44,7 +45,7 @@ type conversation struct {
 
 var devKinds = []string{
 	"none", "drop", "dup", "swap", "retarget-unknown", "retarget-finished", "retarget-live", "retarget-negative",
-	"kind-msg-more", "kind-to-cancel", "kind-to-half", "empty", "data-minus1", "data-plus1", "size-zero", "size-minus1", "size-plus1", "size-max",
+	"kind-msg-more", "kind-to-cancel", "kind-to-half", "empty", "data-minus1", "data-plus1", "size-zero", "size-minus1", "size-plus1", "size-max", "size-64MiB",
 	"method-empty", "method-noslash", "method-slash", "method-unknown-service", "method-unknown-method", "rev-unknown",
 	"win-zero", "win-max", "insert-new-reuse-last-finished", "insert-new-dup", "insert-new-lower", "insert-new-negative", "insert-frame-unknown-id", "big-chunk", "insert-data-after",
 }
@@ -245,7 +246,7 @@ func applyDeviation(c *conversation, kind string, p int, rng *rand.Rand) ([]conv
 		} else {
 			replace(fMore(cur.f.StreamId, data))
 		}
-	case "size-zero", "size-minus1", "size-plus1", "size-max":
+	case "size-zero", "size-minus1", "size-plus1", "size-max", "size-64MiB":
 		if !isMsg {
 			return nil, "", false
 		}
@@ -265,6 +266,8 @@ func applyDeviation(c *conversation, kind string, p int, rng *rand.Rand) ([]conv
 			sz++
 		case "size-max":
 			sz = 0xffffffff
+		case "size-64MiB":
+			sz = 64 << 20
 		}
 		replace(fMsg(cur.f.StreamId, sz, msg.RequestMessage.Data))
 	case "method-empty", "method-noslash", "method-slash", "method-unknown-service", "method-unknown-method", "rev-unknown":
@@ -525,6 +528,9 @@ func famRawConv(w *World, c *Case, rng *rand.Rand) {
 		w.Env.registerSpec(&RPCSpec{ID: tag, Method: "Unary", Handler: []Op{{K: "recv"}, {K: "send", N: 1}, {K: "ret"}}})
 	}
 	w.Wait() // settings
+	runtime.GC()
+	var m0, m1 runtime.MemStats
+	runtime.ReadMemStats(&m0)
 	burst := c.p("burst", 0) == 1 && kind != "insert-new-reuse-last-finished"
 	for i, cf := range frames {
 		if err := rc.Send(cf.f); err != nil {
@@ -535,6 +541,13 @@ func famRawConv(w *World, c *Case, rng *rand.Rand) {
 		}
 	}
 	w.Advance(time.Second)
+	// memory: everything the conversation sent is below 200 kB; whatever the peer *announced*,
+	// the endpoint may not allocate or retain much more than it received (streams are still open here)
+	runtime.ReadMemStats(&m1)
+	if alloc := int64(m1.TotalAlloc) - int64(m0.TotalAlloc); alloc > 48<<20 {
+		w.Violate("C09", "endpoint-bloated-by-peer-input", "deviation %s: the endpoint allocated %d MiB while processing a conversation of %d frames carrying less than 200 kB", desc, alloc>>20, len(frames))
+	}
+	w.Stat("raw_heap_checks", 1)
 	views, recvDone, recvErr := rc.Snapshot()
 	w.Stat("raw_conversations", 1)
 	w.Stat("raw_frames_sent", len(frames))
